@@ -125,6 +125,34 @@ def run(rep):
     from ..core import RuleView
     from .c15 import validators
     validators(RuleView(rep, {"decode-invariant": "generated-decodes"}), None, None, only={"Balance", "Signature"})
+    # every *other* validated type of the stored closure: its decode-time check must be shown to accept what the
+    # constructors produce; without a producer/validator argument for it the rule fails closed unless the conversion is total
+    analysed = {"Balance", "Nonce", "RevocationPair", "Signature"}
+    nval = 0
+    for adt in sorted(clo):
+        m = wm.get(adt)
+        if m is None or m["reader"] is None or m["reader"][0] != "try_from":
+            continue
+        nval += 1
+        nm = adt.split("::")[-1]
+        if nm in analysed:
+            continue
+        _, _, pb = proxy_conversion_positional(prog, adt, m["reader"][1])
+        total = False
+        if pb is not None:
+            try:
+                S7 = Session(prog)
+                r7 = S7.eval(pb)
+                total = r7 is not None and S7.eng.eq_int(S7.eng.discr(r7), 1) == 0
+            except Exception:
+                total = False
+        if total:
+            rep.ok("generated-decodes", nm, sample="restore conversion of %s never rejects" % nm)
+        else:
+            rep.fail("generated-decodes", nm, "stored type %s is restored through a validating conversion that can reject, and the analysis has no argument that every value "
+                     "its constructors produce passes it (a legitimately stored stage might not restore); known validated types: %s (fail closed)" % (nm, sorted(analysed)),
+                     site=(pb or m["de_body"]).loc())
+    rep.floor("validated types in the stored closure", nval, 4)
     # ---- no hidden state
     roots = []
     for b in prog.bodies.values():
